@@ -17,6 +17,7 @@ use chrono::{DateTime, FixedOffset};
 use minicbor::{Decode, Encode};
 use serde::{Deserialize, Serialize};
 use std::borrow::Cow;
+use std::cmp::Ordering;
 use std::fmt;
 
 use crate::cbor::{cbor_decode_datetime, cbor_encode_datetime};
@@ -193,6 +194,31 @@ impl<'a> DataValue {
                     false
                 }
             }
+            //the ordering operators compare any numeric value, whether it is an integer or a float
+            (Self::Float(n), DataOperator::GreaterThan(n2)) => {
+                cmp_float_int(*n, *n2).is_some_and(Ordering::is_gt)
+            }
+            (Self::Float(n), DataOperator::GreaterThanOrEqual(n2)) => {
+                cmp_float_int(*n, *n2).is_some_and(Ordering::is_ge)
+            }
+            (Self::Float(n), DataOperator::LessThan(n2)) => {
+                cmp_float_int(*n, *n2).is_some_and(Ordering::is_lt)
+            }
+            (Self::Float(n), DataOperator::LessThanOrEqual(n2)) => {
+                cmp_float_int(*n, *n2).is_some_and(Ordering::is_le)
+            }
+            (Self::Int(n), DataOperator::GreaterThanFloat(n2)) => {
+                cmp_float_int(*n2, *n).is_some_and(Ordering::is_lt)
+            }
+            (Self::Int(n), DataOperator::GreaterThanOrEqualFloat(n2)) => {
+                cmp_float_int(*n2, *n).is_some_and(Ordering::is_le)
+            }
+            (Self::Int(n), DataOperator::LessThanFloat(n2)) => {
+                cmp_float_int(*n2, *n).is_some_and(Ordering::is_gt)
+            }
+            (Self::Int(n), DataOperator::LessThanOrEqualFloat(n2)) => {
+                cmp_float_int(*n2, *n).is_some_and(Ordering::is_ge)
+            }
             (Self::Datetime(v), DataOperator::ExactDatetime(v2)) => v == v2,
             (Self::Datetime(v), DataOperator::AfterDatetime(v2)) => v > v2,
             (Self::Datetime(v), DataOperator::BeforeDatetime(v2)) => v < v2,
@@ -239,6 +265,26 @@ impl<'a> DataValue {
         serde_json::to_string(&self).map_err(|e| {
             StamError::SerializationError(format!("Writing datavalue to string: {}", e))
         })
+    }
+}
+
+/// Compares a float with an integer by value, without rounding the integer to a float first.
+/// There is no answer when the float is not a number.
+fn cmp_float_int(f: f64, n: isize) -> Option<Ordering> {
+    if f.is_nan() {
+        None
+    } else if f >= 9223372036854775808.0 {
+        //at or above 2^63: beyond every integer
+        Some(Ordering::Greater)
+    } else if f < -9223372036854775808.0 {
+        Some(Ordering::Less)
+    } else {
+        //the integral part fits and converts exactly
+        let whole = f.trunc();
+        match (whole as i128).cmp(&(n as i128)) {
+            Ordering::Equal => (f - whole).partial_cmp(&0.0),
+            ordering => Some(ordering),
+        }
     }
 }
 
